@@ -43,6 +43,13 @@ func applyDamage(dir string, data map[string][]byte, dm Damage) error {
 			cur = append([]byte{}, cur...)
 			cur[dm.Off] ^= 4
 		}
+	case "collide": // same rolling hash, different bytes (falls back to a flip)
+		if dm.Off < len(cur) {
+			cur = append([]byte{}, cur...)
+			if !h.CollideBytes(cur, dm.Off) {
+				cur[dm.Off] ^= 4
+			}
+		}
 	case "truncate":
 		if dm.Len < len(cur) {
 			cur = cur[:dm.Len]
@@ -144,7 +151,7 @@ func check(s Spec) h.Result {
 		cl = append(cl, "damage:"+dm.Kind)
 		rb := readBlocks[dm.Path]
 		switch dm.Kind {
-		case "flip":
+		case "flip", "collide":
 			if rb[int64(dm.Off/h.BS)] {
 				hits = true
 			}
@@ -237,6 +244,9 @@ func genDamage(t *rapid.T, old h.Tree) []Damage {
 				off = size - 1
 			}
 			dm.Off = off
+			if rapid.IntRange(0, 3).Draw(t, "same-weak-hash") == 0 {
+				dm.Kind = "collide"
+			}
 		case 4, 5, 6:
 			dm.Kind = "truncate"
 			nb := size / h.BS
